@@ -252,6 +252,8 @@ func (v *Verifier) constTerm(c *ssa.Const) (*Term, error) {
 			switch f {
 			case 3.141592653589793:
 				return App("pi", SReal), nil
+			case 6.283185307179586:
+				return Mul(RealOfInt(2), App("pi", SReal)), nil
 			case 1.772453850905516, 1.7724538509055159:
 				return App("sqrtpi", SReal), nil
 			}
